@@ -82,4 +82,23 @@ mod verif_c19_wit {
         assert_eq!(row, "null,12.5", "columns `maybe`, `total`");
         assert_eq!(r, response, "no column failed: the response handed back must be untouched, found {}", r);
     }
+
+    /// C19 ("rows whose columns follow the configured mapping in header order"): a row has exactly one cell per header column, also when a mapped value is an array
+    /// or a text with a comma -- read with the quoting rule of CSV (a cell in double quotes may hold commas)
+    #[test]
+    fn c19_wit_csv_row_has_one_cell_per_column_for_any_value() {
+        fn csv_cells(line: &str) -> usize {   // number of cells under CSV quoting: commas inside a double-quoted cell do not separate
+            let (mut n, mut quoted) = (1, false);
+            for ch in line.chars() { if ch == '"' { quoted = !quoted; } else if ch == ',' && !quoted { n += 1; } }
+            n
+        }
+        let mut mapping: OrderedHashMap<String, CsvMapping> = OrderedHashMap::new();
+        mapping.insert(String::from("path"), CsvMapping::Path(String::from("route.path")));
+        mapping.insert(String::from("name"), CsvMapping::Path(String::from("request.name")));
+        let format = ResponseOutputFormat::Csv { mapping, sorted: true };
+        let header = format.initial_file_contents().unwrap();
+        let mut response = json!({"request": {"name": "depot, north"}, "route": {"path": [0, 2, 5]}});
+        let row = format.format_response(&mut response).unwrap();
+        assert_eq!(csv_cells(&row), csv_cells(header.trim_end()), "header {:?} has {} columns, the row {:?} has {} cells", header.trim_end(), csv_cells(header.trim_end()), row, csv_cells(&row));
+    }
 }
